@@ -4,6 +4,8 @@ package c01
 import (
 	"fmt"
 	"math"
+	"os"
+	"strconv"
 	"testing"
 
 	"github.com/ctessum/geom"
@@ -15,6 +17,9 @@ type Case struct {
 	A      vkit.GJ `json:"a"` // Polygon | MultiPolygon | Bounds
 	B      vkit.GJ `json:"b"`
 	Config string  `json:"config"` // how B was placed relative to A (generator label)
+	// ScaleExp k: the operations run on both operands multiplied exactly by 2^k and the result is divided by 2^k again
+	// before the oracle (which works on the unscaled case) looks at it
+	ScaleExp int `json:"scale_exp,omitempty"`
 }
 
 var kinds = []string{"Polygon", "MultiPolygon", "Bounds"}
@@ -67,6 +72,12 @@ func gen(t *rapid.T) Case {
 		bx, by = A.Cx+1000*R*math.Cos(ang), A.Cy+1000*R*math.Sin(ang)
 	}
 	c.B = vkit.GenPolygonal(t, kb, bx, by, RB, snap).G
+	if rapid.IntRange(0, 2).Draw(t, "scaled") == 1 {
+		c.ScaleExp = rapid.OneOf(rapid.IntRange(-10, 40), rapid.IntRange(-10, 40), rapid.IntRange(-10, 40), rapid.IntRange(-60, -10), rapid.IntRange(-200, 200)).Draw(t, "scale_exp")
+	}
+	if f := os.Getenv("VERIF_C01_FORCEK"); f != "" { // threshold experiments only (DESIGN.md section 5, tiny_absolute_extent)
+		c.ScaleExp, _ = strconv.Atoi(f)
+	}
 	return c
 }
 
@@ -110,7 +121,7 @@ func apply(op int, a, b geom.Polygonal) geom.Polygonal {
 }
 
 // resultPolys extracts rings from a result; a nil interface or nil pointer is the empty region.
-func resultPolys(r geom.Polygonal) ([][][]vkit.P2, bool) {
+func resultPolys(r geom.Polygonal, inv float64) ([][][]vkit.P2, bool) {
 	if r == nil {
 		return nil, true
 	}
@@ -123,13 +134,42 @@ func resultPolys(r geom.Polygonal) ([][][]vkit.P2, bool) {
 		for _, ring := range p {
 			rr := make([]vkit.P2, len(ring))
 			for i, q := range ring {
-				rr[i] = vkit.MkP(q.X, q.Y)
+				rr[i] = vkit.MkP(q.X*inv, q.Y*inv)
 			}
 			rings = append(rings, rr)
 		}
 		out = append(out, rings)
 	}
 	return out, false
+}
+
+// scaleGJ multiplies every coordinate of a Polygon / MultiPolygon / Bounds by f.
+func scaleGJ(g vkit.GJ, f float64) vkit.GJ {
+	if f == 1 {
+		return g
+	}
+	m := func(r []vkit.P2) []vkit.P2 {
+		out := make([]vkit.P2, len(r))
+		for i, p := range r {
+			out[i] = vkit.MkP(float64(p[0])*f, float64(p[1])*f)
+		}
+		return out
+	}
+	o := vkit.GJ{T: g.T}
+	if g.Pts != nil {
+		o.Pts = m(g.Pts)
+	}
+	for _, r := range g.Rings {
+		o.Rings = append(o.Rings, m(r))
+	}
+	for _, p := range g.Polys {
+		var pp [][]vkit.P2
+		for _, r := range p {
+			pp = append(pp, m(r))
+		}
+		o.Polys = append(o.Polys, pp)
+	}
+	return o
 }
 
 func bbox(polys [][][]vkit.P2) (x0, y0, x1, y1 float64) {
@@ -234,6 +274,26 @@ func nearVerticalEdge(c Case) bool {
 	return false
 }
 
+// tinyAbsoluteScale recognises the inputs of known finding `absolute_tolerances_at_tiny_scale`: the dependency
+// polyclip-go compares against two ABSOLUTE constants - intersection points are snapped to segment end points within
+// 8e-14 (absolute once coordinates are below 1), and two (pieces of) segments count as parallel when
+// cross^2 <= 1e-21*len0*len1 (lengths, not squared lengths, so the test is len0*len1*sin^2(angle) <= 1e-21). Both are
+// harmless at ordinary magnitudes. With the general-position margin m = 1e-7*s used here (s = the larger operand's
+// extent as handed to the operation) the pieces on either side of a crossing are at least m/sin(angle) long, so
+// len0*len1*sin^2 >= 1e-14*s^2, which stays above ten times the constant exactly when s >= 1e-3; snapping needs
+// m < 8e-14*sqrt(2), i.e. s < 1.2e-6. The finding is therefore the class s < 1e-3 (observed: wrong regions - an
+// Intersection that is empty or keeps area the operands do not share - from s = 5e-6 down, none seen above).
+func tinyAbsoluteScale(c Case) bool {
+	if c.ScaleExp >= 0 {
+		return false
+	}
+	pa, pb := polysOf(c.A), polysOf(c.B)
+	ax0, ay0, ax1, ay1 := bbox(pa)
+	bx0, by0, bx1, by1 := bbox(pb)
+	scale := math.Max(math.Max(ax1-ax0, ay1-ay0), math.Max(bx1-bx0, by1-by0))
+	return scale*math.Ldexp(1, c.ScaleExp) < 1e-3
+}
+
 func run(c Case) (v vkit.Verdict) {
 	pa, pb := polysOf(c.A), polysOf(c.B)
 	ea, eb := vkit.EdgesOf(pa, 0), vkit.EdgesOf(pb, 1)
@@ -306,7 +366,27 @@ func run(c Case) (v vkit.Verdict) {
 	v.Class("kinds_" + c.A.T + "_" + c.B.T)
 	v.NonTrivial = true // every class above is one where either the clipper or a shortcut acts; far-apart is bbox_disjoint
 
-	ga, gb := c.A.Geom().(geom.Polygonal), c.B.Geom().(geom.Polygonal)
+	sc, inv := 1.0, 1.0
+	if c.ScaleExp != 0 {
+		sc, inv = math.Ldexp(1, c.ScaleExp), math.Ldexp(1, -c.ScaleExp)
+		exact := true
+		for _, g := range []vkit.GJ{c.A, c.B} {
+			for _, q := range g.Flatten() {
+				for _, f := range q {
+					if x := float64(f); (x*sc)*inv != x || (x != 0 && math.Abs(x*sc) < 1e-290) || math.IsInf(x*sc, 0) {
+						exact = false
+					}
+				}
+			}
+		}
+		if exact {
+			v.Class("scaled_by_power_of_two")
+		} else {
+			sc, inv = 1, 1
+			v.Class("scaling_not_exact_run_unscaled")
+		}
+	}
+	ga, gb := scaleGJ(c.A, sc).Geom().(geom.Polygonal), scaleGJ(c.B, sc).Geom().(geom.Polygonal)
 	var areaA, areaB float64
 	vkit.SlabSweep(append(append([]vkit.Edge{}, ea...), eb...), func(mask uint, area, cx, cy float64) {
 		if mask&1 != 0 {
@@ -323,7 +403,7 @@ func run(c Case) (v vkit.Verdict) {
 		if p := vkit.Catch(func() { res = apply(op, ga, gb) }); p != "" {
 			return v.Fail("%s.%s(%s) panicked: %s", c.A.T, opNames[op], c.B.T, p)
 		}
-		pr, isNil := resultPolys(res)
+		pr, isNil := resultPolys(res, inv)
 		if isNil {
 			v.Class("nil_result")
 		}
@@ -399,7 +479,7 @@ func TestProp(t *testing.T) {
 	_ = fmt.Sprint
 	vkit.Main(t, vkit.Spec[Case]{
 		ID: "C01",
-		Rule: "rapid: operand pairs with kinds drawn from {Polygon, MultiPolygon, *Bounds}^2; polygons valid by construction (two families: 2/3 star-shaped shell of 3-12 vertices with " +
+		Rule: "rapid: operand pairs with kinds drawn from {Polygon, MultiPolygon, *Bounds}^2; in 1 case of 3 both operands are handed to the operations multiplied exactly by 2^k (k in +-40 or +-200; the result is divided by 2^k again, so the oracle works at unit scale); polygons valid by construction (two families: 2/3 star-shaped shell of 3-12 vertices (a few per cent: 100-400) with " +
 			"0-3 star-shaped holes in disjoint sectors of the inscribed disc; 1/3 non-star 'comb/snake' bands of 6-18 vertices between two chains over common knots, rotated or with vertically aligned knots, holes in the cells' inscribed discs; multi-polygons of 1-3 members in disjoint cells, every ring independently reversed/" +
 			"rotated/closed-or-unclosed); B placed by a drawn configuration (overlap, nested, in a hole, diagonal, bounding-box disjoint, far); continuous " +
 			"coordinates and a variant snapped to 2^-10; cases with a vertex of one operand within 1e-7*scale of an edge of the other are skipped (counted). All four " +
@@ -410,6 +490,6 @@ func TestProp(t *testing.T) {
 		Assumptions: []string{"inputs in general position by construction/filter", "the slab integrator (vkit/slab.go) and even-odd PIP (vkit/oracle.go) are the trusted oracle"},
 		Gen:         gen,
 		Run:         run,
-		Known:       map[string]func(Case) bool{"near_vertical_edge": nearVerticalEdge},
+		Known:       map[string]func(Case) bool{"near_vertical_edge": nearVerticalEdge, "absolute_tolerances_at_tiny_scale": tinyAbsoluteScale},
 	})
 }
